@@ -406,9 +406,9 @@ func variants(thorough bool) []sx.Variant {
 	var out []sx.Variant
 	for _, s := range []string{"ev1", "ev2", "ev3", "ev4", "ev5"} {
 		p := params{Scen: s}
-		bound := 1
+		bound := 2
 		if thorough {
-			bound = 2
+			bound = 3
 		}
 		out = append(out, sx.Variant{
 			Name: s, Class: "events", MaxSteps: 20000, MaxTime: 10 * time.Minute, Bound: bound, Shards: 8,
